@@ -6,6 +6,7 @@ import (
 	"fmt"
 	"math/rand"
 	"strings"
+	"sync"
 
 	jdoc "github.com/jsightapi/jsight-schema-go-library/formats/json"
 	"github.com/jsightapi/jsight-schema-go-library/notations/jschema"
@@ -361,7 +362,6 @@ func docSx(d *doc) string {
 	}
 }
 
-
 // ---- WIDE stream: the statement quantifies over EVERY key of the example and EVERY array position, whatever their number.
 // Objects with w properties and example arrays with w elements for widths around powers of two (word sizes, small-table
 // limits), documents that are the full inhabitant with ONE key dropped / one element of the wrong kind at every
@@ -589,6 +589,62 @@ func Run(args []string) {
 			in := fmt.Sprintf("schema=%q optDefault=%v document=%q", text, optDefault, dt)
 			inputs = append(inputs, in)
 			rep.Case(schemaSx+" "+docSx(d), depthOf(n) >= 2)
+		}
+	}
+	// FIRST-USE race: the verdict is a function of schema and document, not of which goroutine happens to use a fresh
+	// schema object first: 8 goroutines validate (their own document objects) against ONE fresh, not yet compiled schema
+	for i := vh.Pick(300, 3000); i > 0; i-- {
+		n := genNode(r, 3+r.Intn(3))
+		optDefault := r.Intn(2) == 0
+		var sb strings.Builder
+		print(&sb, n, 0, "", "", r)
+		text := sb.String()
+		mk := func() *jschema.Schema {
+			if optDefault {
+				return jschema.New("s", text, jschema.KeysAreOptionalByDefault())
+			}
+			return jschema.New("s", text)
+		}
+		docs := make([]string, 8)
+		seq := make([]string, 8)
+		ref := mk()
+		for g := range docs {
+			docs[g] = docText(sample(r, n, optDefault, []int{0, 0, 25, 100}[g%4]), r)
+			g := g
+			seq[g] = vh.Recover(func() string {
+				if err := ref.Validate(jdoc.New("d", docs[g])); err != nil {
+					return "REJ"
+				}
+				return "ACC"
+			})
+		}
+		shared := mk()
+		got := make([]string, 8)
+		var wg sync.WaitGroup
+		start := make(chan struct{})
+		for g := range docs {
+			wg.Add(1)
+			go func(g int) {
+				defer wg.Done()
+				<-start
+				got[g] = vh.Recover(func() string {
+					if err := shared.Validate(jdoc.New("d", docs[g])); err != nil {
+						return "REJ"
+					}
+					return "ACC"
+				})
+			}(g)
+		}
+		close(start)
+		wg.Wait()
+		rep.Stat("first_use_race")
+		rep.Case("race:"+text, depthOf(n) >= 2)
+		for g := range docs {
+			if got[g] != seq[g] {
+				rep.AddDiff(vh.Diff{Component: "C01-first-use-race", Input: fmt.Sprintf("schema=%q optDefault=%v document=%q: one of 8 goroutines validating against one FRESH schema object at once", text, optDefault, docs[g]),
+					Impl: got[g], Model: "verdict of a sequential run on a fresh object: " + seq[g]})
+				break
+			}
 		}
 	}
 	// WIDE stream
